@@ -1,22 +1,22 @@
 """C20  Domains and factors index consistently and reject ill-shaped bindings."""
 from __future__ import annotations
-import itertools, math
+import copy, itertools, math
 import numpy as np
 from hypothesis import strategies as st
 from .. import gen_pattern as gp
 
 ID = 'C20'
 RULE = ("(domain) FiniteDomain over 0-6 pairwise-distinct hashable values (ints, strings, floats, tuples) and RangeDomain of size 0-6: "
-        "numberize/denumberize inverse bijections, contains on members and non-members, equality by class and content. (factor) "
+        "numberize/denumberize inverse bijections, contains on members and non-members, equality by class and content, also after the list the domain was built from has been mutated by the caller. (factor) "
         "FiniteFactor over 0-3 domains with weights given as nested lists, Tensor or typed PatternedTensor, of the right shape or a wrong "
         "one (one size off, permuted, extra/missing dimension, ragged list): accepted iff the shape is the tuple of sizes; apply(values) = "
         "dense entry at the numberized position; equality by domains and dense weights (another pattern of the same tensor is equal, a "
         "perturbed one is not). (binding) add_factor / new_finite_factor / add_domain / shape on FGG and FactorGraph with matching and "
-        "mismatching arity, domain, terminality, already-bound labels: accepted iff legal, otherwise ValueError/KeyError and the binding "
+        "mismatching arity, domain (at any position, also of a node label repeated in the type), terminality, already-bound labels: accepted iff legal, otherwise ValueError/KeyError and the binding "
         "tables unchanged. non-trivial = arity >= 2 with two different domain sizes, or a rejected binding; distinct by case hash")
-ASSUMPTIONS = ["RangeDomain.contains is asked about integers only", "values are distinct under Python equality (1, 1.0 and True are one value)",
+ASSUMPTIONS = ["a domain is a value: mutating the list passed to FiniteDomain afterwards does not change the domain (the constructor copies)", "RangeDomain.contains is asked about integers only", "values are distinct under Python equality (1, 1.0 and True are one value)",
                "a rejected FiniteFactor construction may raise ValueError, TypeError or RuntimeError (torch's own message for ragged lists)"]
-ESSENTIAL_LABELS = ['mode:domain', 'mode:factor', 'mode:binding', 'wrong-shape', 'patterned-weights', 'rebind', 'size0', 'size1']
+ESSENTIAL_LABELS = ['mode:domain', 'mode:factor', 'mode:binding', 'wrong-shape', 'patterned-weights', 'rebind', 'size0', 'size1', 'repeated-node-label', 'source-list-mutated']
 
 VALS = [0, 1, 2, -1, 7, 'a', 'b', '', 'NNS', 0.5, 2.5, -0.0 + 3.25, ('x', 1), ('x', 2), (), 'BOS', 10, 11]
 
@@ -65,10 +65,17 @@ def cases(draw, tier):
             d2 = {'values': list(d1['values'])}
         else:
             d2 = {'values': list(d1['values'][:-1])}
-        return {'mode': 'domain', 'd1': d1, 'd2': d2, 'probe': [tj(draw(st.sampled_from(VALS))) for _ in range(4)],
+        return {'mode': 'domain', 'mutate_src': draw(st.booleans()), 'd1': d1, 'd2': d2, 'probe': [tj(draw(st.sampled_from(VALS))) for _ in range(4)],
                 'iprobe': [draw(st.integers(-2, 8)) for _ in range(3)]}
     ar = draw(st.sampled_from([0, 1, 2, 2, 3]))
     doms = [draw(domain_specs(3 if ar == 3 else 4)) for _ in range(ar)]
+    # repeated node labels in the edge label's type, e.g. (A, A, B): positions that share a label share its domain
+    label_of = list(range(ar))
+    if ar >= 2 and draw(st.integers(0, 2)) == 0:
+        j = draw(st.integers(1, ar - 1)); i = draw(st.integers(0, j - 1))
+        label_of[j] = label_of[i]; doms[j] = copy.deepcopy(doms[i])
+        if ar == 3 and draw(st.booleans()):
+            label_of = [0, 0, 0]; doms = [copy.deepcopy(doms[0]) for _ in range(3)]
     sizes = [dom_size(d) for d in doms]
     wrong = draw(st.sampled_from(['ok', 'ok', 'ok', 'off-by-one', 'permuted', 'extra-dim', 'missing-dim', 'ragged']))
     form = draw(st.sampled_from(['list', 'tensor', 'patterned']))
@@ -81,7 +88,7 @@ def cases(draw, tier):
     tys = [['atom', s] for s in shape]
     pat = draw(gp.tensor_specs(tys, values=(0.0, 1.0, 2.0, 0.5, 7.0, math.inf), defaults=(0.0, 1.0), force_dense=(form != 'patterned')))
     pat2 = draw(gp.tensor_specs(tys, values=(0.0,), defaults=(0.0,), p_bcast=0.0))     # a second pattern for the equality clause
-    c = {'mode': mode, 'doms': doms, 'wrong': wrong, 'form': form, 'w': pat, 'w2pat': pat2,
+    c = {'mode': mode, 'doms': doms, 'label_of': label_of, 'wrong': wrong, 'form': form, 'w': pat, 'w2pat': pat2,
          'apply': [draw(st.integers(0, 5)) for _ in range(3)], 'perturb': draw(st.booleans())}
     if mode == 'binding':
         c['scenario'] = draw(st.sampled_from(['ok', 'ok', 'arity', 'domain-differs', 'nonterminal', 'rebind', 'rebind-new', 'domain-rebind', 'unknown-label', 'unmapped-nodelabel']))
@@ -93,10 +100,15 @@ def strategy(tier):
     return cases(tier)
 
 
-def mk_domain(d):
+def mk_domain(d, mutate_src=False):
     from fggs.domains import FiniteDomain, RangeDomain
     if 'range' in d: return RangeDomain(d['range'])
-    return FiniteDomain([fj(v) for v in d['values']])
+    src = [fj(v) for v in d['values']]
+    dom = FiniteDomain(src)
+    if mutate_src:
+        # a domain is a value: the caller's list (e.g. a vocabulary that keeps growing) may change afterwards
+        src.reverse(); src.append('__added_later__'); src[:1] = []
+    return dom
 
 
 def check(case, ctx):
@@ -110,7 +122,7 @@ def check_domain(case, ctx):
     from fggs.domains import FiniteDomain, RangeDomain
     ds = []
     for d in (case['d1'], case['d2']):
-        dom = ctx.call('Domain()', mk_domain, d)
+        dom = ctx.call('Domain()', mk_domain, d, bool(case.get('mutate_src')))
         ds.append(dom)
         n = dom_size(d)
         ctx.label('size0' if n == 0 else None, 'size1' if n == 1 else None, 'range' if 'range' in d else 'finite')
@@ -135,7 +147,7 @@ def check_domain(case, ctx):
            (case['d1'].get('range') == case['d2'].get('range') if 'range' in case['d1'] else [fj(v) for v in case['d1']['values']] == [fj(v) for v in case['d2']['values']])
     ctx.require((ds[0] == ds[1]) == same and (ds[0] != ds[1]) == (not same) and (ds[1] == ds[0]) == same, 'domain-equality-wrong', f'{case["d1"]} vs {case["d2"]}: == gives {ds[0] == ds[1]}, expected {same}')
     ctx.require(ds[0] == mk_domain(case['d1']) and not (ds[0] != mk_domain(case['d1'])), 'domain-equality-wrong', 'a domain differs from an identical copy')
-    ctx.label('equal-domains' if same else 'different-domains')
+    ctx.label('equal-domains' if same else 'different-domains', 'source-list-mutated' if case.get('mutate_src') else None)
     ctx.nontrivial = dom_size(case['d1']) >= 2
 
 
@@ -223,15 +235,18 @@ def check_binding(case, ctx):
         dense_ok = False
     else:
         dense_ok = True
-    nls = [fggs.NodeLabel(f'L{i}') for i in range(ar)]
+    label_of = case.get('label_of') or list(range(ar))
+    nls = [fggs.NodeLabel(f'L{label_of[i]}') for i in range(ar)]
+    if len(set(label_of)) < ar: ctx.label('repeated-node-label')
     # distinct node labels may share a domain object: fine
     if case['container'] == 'fgg':
         c = fggs.FGG(fggs.EdgeLabel('S', [], is_nonterminal=True))
     else:
         c = fggs.FactorGraph()
     ctx.label('container:' + case['container'], 'scenario:' + sc)
-    for nl, d in zip(nls, doms):
-        if sc == 'unmapped-nodelabel' and nl is nls[-1]:
+    for i, (nl, d) in enumerate(zip(nls, doms)):
+        if label_of[i] != i: continue                      # a repeated label: its domain was bound at the first occurrence
+        if sc == 'unmapped-nodelabel' and nl == nls[-1]:
             c.add_node_label(nl); continue
         ctx.call('add_domain', c.add_domain, nl, d)
     el = fggs.EdgeLabel('f', nls, is_terminal=True)
